@@ -51,7 +51,6 @@ package keeper
 //@   ensures[C04.refund_effect] sdbSupply[payload(st.state)] == old(sdbSupply[payload(st.state)]) + (st.SenderPaidTheFee ? st.gas * bigval[st.gasPrice] : 0)
 //@   panics[C05.refund_never_panics] never
 
-
 // preCheck: nonce / EOA / fee-cap admission rules of go-ethereum, then buyGas (no balance debit: the fee was
 // taken by the ante handler).
 //@ func (st *StateTransition) preCheck() (err error)
